@@ -1,6 +1,7 @@
 import CotengraVerif.Lemmas.PathInverse
 import CotengraVerif.Lemmas.Traverse
 import CotengraVerif.Lemmas.TraverseDfs
+import CotengraVerif.Lemmas.FromPath
 
 /-!
 # C10 — path formats convert into each other and into trees without loss
@@ -122,6 +123,101 @@ theorem cfCheck_sound (t : BT) (hn : t.leaves.Nodup) (seq : List BT) (h : cfChec
     · simp at h1
     · exact h1
 
+/-! ## tree → path → tree -/
+
+/-- `get_path` is `ssa_to_linear` applied to `get_ssa_path` (same traversal), including which
+    of them raise -/
+theorem getPath_eq_ssaToLinear_getSsaPath (n : Nat) (seq : List BT) :
+    getPath n seq = (getSsaPath n seq).bind (ssaToLinear n) := getPath_eq n seq
+
+theorem initial_dict (n : Nat) :
+    ((List.range n).map BT.leaf).map (gOf []) = (List.range n).map fun i => (i, [i]) := by
+  rw [List.map_map]
+  apply List.map_congr_left
+  intro i _
+  simp [gOf, idT, nodeId, key, sortAsc, insertAsc, BT.leaves]
+
+/-- **round trip through an SSA path**, for every children-first traversal of a tree whose
+    leaves are `0..n-1`: `get_ssa_path` succeeds, is a valid SSA path, and
+    `from_path(ssa_path=…)` creates exactly the nodes of the traversal (as sorted leaf lists),
+    in order. -/
+theorem ssa_path_roundtrip (t : BT) (n : Nat) (hl : t.leaves.Perm (List.range n)) (seq : List BT)
+    (h : ChildrenFirst t seq) :
+    ∃ path, getSsaPath n seq = some path ∧ ValidSsa (List.range n) n path ∧
+      ∃ left, fromSsaPath n path = some (seq.map key, left) := by
+  have hn : t.leaves.Nodup := hl.nodup_iff.2 List.nodup_range
+  have hready := ready_of_childrenFirst t hn seq h.1 h.2 ((List.range n).map BT.leaf)
+    (by intro i hi; exact List.mem_map.2 ⟨i, hl.mem_iff.1 hi, rfl⟩)
+    (by intro x hx; obtain ⟨i, _, rfl⟩ := List.mem_map.1 hx; rfl)
+  have hids : ((List.range n).map BT.leaf).map (idT []) = List.range n := by
+    rw [List.map_map]
+    conv => rhs; rw [← List.map_id (List.range n)]
+    apply List.map_congr_left
+    intro i _; simp [idT, nodeId]
+  obtain ⟨path, h1, h2, left, h3⟩ := ssa_from seq ((List.range n).map BT.leaf) [] n hready
+    (h.1.nodup_iff.2 (internal_nodup t hn))
+    (by
+      intro x hx hm
+      obtain ⟨i, _, rfl⟩ := List.mem_map.1 hm
+      exact leaf_not_mem_internal t i (h.1.mem_iff.1 hx))
+    (by intro x hx; obtain ⟨i, _, rfl⟩ := List.mem_map.1 hx; rfl)
+    (by rw [hids]; exact List.pairwise_lt_range)
+    (by
+      intro x hx
+      obtain ⟨i, hi, rfl⟩ := List.mem_map.1 hx
+      simpa [idT, nodeId] using hi)
+  rw [hids] at h2
+  rw [initial_dict] at h3
+  exact ⟨path, h1, h2, left, h3⟩
+
+/-- **converting a path does not change the tree**: for a valid SSA path (steps of one or two
+    ids) both branches of `from_path` agree along `ssa_to_linear`. -/
+theorem fromPath_ssaToLinear (n : Nat) (p : Path) (h : ValidSsa (List.range n) n p) :
+    ∃ lp, ssaToLinear n p = some lp ∧ fromLinearPath n lp = fromSsaPath n p := by
+  have hk : ((List.range n).map fun i => (i, [i])).map (·.1) = List.range n := by
+    rw [List.map_map]
+    conv => rhs; rw [← List.map_id (List.range n)]
+    apply List.map_congr_left
+    intro i _; rfl
+  have hv : ((List.range n).map fun i => (i, [i])).map (·.2) = (List.range n).map fun i => [i] := by
+    rw [List.map_map]
+    apply List.map_congr_left
+    intro i _; rfl
+  obtain ⟨lp, h1, h2⟩ := fromLinear_eq_fromSsa p ((List.range n).map fun i => (i, [i])) n
+    (by rw [hk]; exact idsOK_range n) (by rw [hk]; exact h)
+  rw [hk] at h1
+  rw [hv] at h2
+  exact ⟨lp, h1, h2⟩
+
+/-- **round trip through a linear path** (`get_path`), for every children-first traversal:
+    `from_path(path=tree.get_path(order))` has exactly the nodes of the tree. -/
+theorem path_roundtrip (t : BT) (n : Nat) (hl : t.leaves.Perm (List.range n)) (seq : List BT)
+    (h : ChildrenFirst t seq) :
+    ∃ lp, getPath n seq = some lp ∧ ValidLinear n lp ∧
+      ∃ left, fromLinearPath n lp = some (seq.map key, left) ∧ (seq.map key).Perm (t.internal.map key) := by
+  obtain ⟨path, h1, h2, left, h3⟩ := ssa_path_roundtrip t n hl seq h
+  obtain ⟨lp, h4, h5⟩ := fromPath_ssaToLinear n path h2
+  obtain ⟨lp', h6, h7, _⟩ := linear_ssa_inverse n path h2
+  rw [h4] at h6
+  cases h6
+  refine ⟨lp, ?_, h7, left, ?_, h.1.map key⟩
+  · rw [getPath_eq_ssaToLinear_getSsaPath, h1]; exact h4
+  · rw [h5, h3]
+
+/-- the round trip for the two real traversals, any `order` -/
+theorem path_roundtrip_traversals (l r : BT) (n : Nat) (hl : (BT.node l r).leaves.Perm (List.range n))
+    (order : BT → Nat) :
+    (∃ lp left, getPath n (traverseOrdered (.node l r) order) = some lp ∧
+      fromLinearPath n lp = some ((traverseOrdered (.node l r) order).map key, left)) ∧
+    (∃ lp left, getPath n (traverseDfs (.node l r)) = some lp ∧
+      fromLinearPath n lp = some ((traverseDfs (.node l r)).map key, left)) := by
+  have hn : (BT.node l r).leaves.Nodup := hl.nodup_iff.2 List.nodup_range
+  constructor
+  · obtain ⟨lp, h1, _, left, h2, _⟩ := path_roundtrip _ n hl _ (traverse_ordered_children_first l r hn order)
+    exact ⟨lp, left, h1, h2⟩
+  · obtain ⟨lp, h1, _, left, h2, _⟩ := path_roundtrip _ n hl _ (traverse_dfs_postorder l r hn).2
+    exact ⟨lp, left, h1, h2⟩
+
 /-! ## non-vacuity -/
 
 def exTree : BT := .node (.node (.leaf 3) (.node (.leaf 0) (.leaf 2))) (.node (.leaf 1) (.leaf 4))
@@ -136,5 +232,9 @@ example : (traverseDfs exTree == exTree.internal) = true := by decide
 example : (traverseOrdered exTree (fun x => 10 - x.leaves.length)).map (·.leaves) =
     [[0, 2], [3, 0, 2], [1, 4], [3, 0, 2, 1, 4]] := by decide
 example : cfCheck exTree (traverseOrdered exTree (fun x => x.leaves.length % 2)) = true := by decide
+example : exTree.leaves.Perm (List.range 5) := by decide
+example : getPath 5 (traverseDfs exTree) = some [[0, 2], [1, 3], [0, 1], [0, 1]] := by decide
+example : fromLinearPath 5 [[0, 2], [1, 3], [0, 1], [0, 1]] =
+    some ([[0, 2], [0, 2, 3], [1, 4], [0, 1, 2, 3, 4]], [[0, 1, 2, 3, 4]]) := by decide
 
 end Cotengra.C10
